@@ -45,7 +45,9 @@ struct verif_in {
 VERIF_DECLARE_IN
 
 static struct snapraid_disk D[3];
-static unsigned char BLKMEM[3][sizeof(struct snapraid_block) + HASH_MAX];
+/* three separate 1-D objects (never rows of a 2-D array: cbmc defect of DESIGN 2.3, and 30x faster) */
+static unsigned char BLKMEM0[sizeof(struct snapraid_block) + HASH_MAX], BLKMEM1[sizeof(struct snapraid_block) + HASH_MAX], BLKMEM2[sizeof(struct snapraid_block) + HASH_MAX];
+static unsigned char *const BLKMEM[3] = { BLKMEM0, BLKMEM1, BLKMEM2 };
 static struct snapraid_block *G_BLK[3];
 
 static unsigned g_dealloc_calls, g_dealloc_mask, g_gen_calls, g_set_calls;
@@ -366,6 +368,67 @@ void h_sync_fixchk(void)
 					VERIF_ASSERT(B[k][q] == IN.fcopy[k][q], "a pending / replaced / deleted block gets back exactly the bytes read before the repair");
 			}
 		}
+	}
+	VERIF_CANARY();
+}
+#endif
+
+/*
+ * Region of state_hash_process (the pre-hash pass, `sync -h`): a block whose hash is only provisional (REP) and does
+ * not match the data ALWAYS blocks the following sync (*skip_sync = 1) - whatever the reason the hash was provisional -
+ * is counted, and keeps state and hash; matching data raises nothing; a pending (CHG) block gets its hash and becomes
+ * REP (hashed, parity still invalid).
+ */
+#ifdef VERIF_PREHASH_REGION
+#include "region_sync_prehash.c"
+
+void h_sync_prehash(void)
+{
+	static struct snapraid_state st;
+	static struct snapraid_disk disk;
+	static struct snapraid_file file;
+	static struct snapraid_handle handle[1];
+	/* a 1-D object of its own: memcpy with a symbolic length into a row of a 2-D array hits the cbmc defect of DESIGN 2.3 */
+	static unsigned char ONEBLK[sizeof(struct snapraid_block) + HASH_MAX];
+	struct snapraid_block *b = (struct snapraid_block *)ONEBLK;
+	static unsigned char data[8];
+	unsigned silent_error = 0;
+	int skip_sync = 0, reached_end = 0, k, mismatch = 0;
+	const unsigned char *cmp;
+	VERIF_INPUTS();
+	VERIF_ASSUME(IN.hash_size >= 2 && IN.hash_size <= HASH_MAX);
+	VERIF_ASSUME(IN.one_state == BLOCK_STATE_CHG || IN.one_state == BLOCK_STATE_REP);
+	BLOCK_HASH_SIZE = IN.hash_size;
+	st.hash = HASH_MURMUR3;
+	st.prevhash = HASH_SPOOKY2;
+	st.need_write = 0;
+	b->state = IN.one_state;
+	for (k = 0; k < HASH_MAX; ++k) {
+		b->hash[k] = IN.recorded[k];
+		G_DIGEST_CUR[k] = IN.digest_cur[k];
+		G_DIGEST_PREV[k] = IN.digest_prev[k];
+	}
+	file.flag = IN.is_copy ? FILE_IS_COPY : 0;
+	file.sub = "f";
+	cmp = IN.rehash ? IN.digest_prev : IN.digest_cur;
+	for (k = 0; k < HASH_MAX; ++k)
+		if (k < IN.hash_size && cmp[k] != IN.recorded[k])
+			mismatch = 1;
+#ifdef VERIF_NATIVE
+	exit(77);
+#endif
+	region_sync_prehash(&st, IN.rehash != 0, data, 5, IN.one_state, b, IN.pos, &disk, &file, handle, 0, 0, &skip_sync, &silent_error, &reached_end);
+	if (IN.one_state == BLOCK_STATE_REP) {
+		VERIF_ASSERT(skip_sync == mismatch, "pre-hash: a provisional hash that does not match the data always blocks the sync that would follow (and only then)");
+		VERIF_ASSERT(silent_error == (unsigned)mismatch && reached_end == !mismatch, "pre-hash: the mismatch is counted and the block is not counted as processed");
+		VERIF_ASSERT(b->state == BLOCK_STATE_REP && st.need_write == 0, "pre-hash: a comparison changes nothing");
+		for (k = 0; k < HASH_MAX; ++k)
+			VERIF_ASSERT(b->hash[k] == IN.recorded[k], "pre-hash: a comparison never overwrites the hash");
+	} else {
+		VERIF_ASSERT(b->state == BLOCK_STATE_REP && st.need_write == 1 && !skip_sync && reached_end, "pre-hash: a pending block becomes hashed (REP), to be written");
+		for (k = 0; k < HASH_MAX; ++k)
+			if (k < IN.hash_size)
+				VERIF_ASSERT(b->hash[k] == cmp[k], "pre-hash: the stored hash is the digest of the data just read");
 	}
 	VERIF_CANARY();
 }
